@@ -37,7 +37,7 @@ ASSUMPTIONS = ['dict key order of Graph.epidata is not part of the comparison (b
 KEYS = [None, 'original', 'alphanumeric', 'canonical']
 PURE_OPS = ['format', 'interpret', 'decode', 'encode', 'configure', 'reconfigure', 'reify_edges', 'dereify_edges', 'reify_attributes',
             'indicate_branches', 'canonicalize_roles', 'queries', 'or', 'sub', 'errors', 'diagnostics', 'alignments', 'format_triples',
-            'eq']
+            'eq', 'errors-disconnected']
 INPLACE_OPS = ['inplace-rearrange', 'inplace-reset', 'inplace-ior', 'inplace-isub', 'inplace-canon-rearrange', 'inplace-parse-result']
 TRANSFORMS = {'reify_edges', 'dereify_edges', 'reify_attributes', 'indicate_branches', 'canonicalize_roles', 'reconfigure'}
 
@@ -125,6 +125,17 @@ def run_op(op, pool, m):
         return [g == h, t == pool[op[2] % n]['tree']]
     if k == 'errors':
         return _fp(m.errors(g))
+    if k == 'errors-disconnected':
+        # a hand-built graph with two unreachable copies of another pool graph whose variable names only differ in the
+        # zero-padding of a numeric suffix (zq1 / zq01); the ORDER of the report is part of the result (error-N numbering)
+        h = pool[op[2] % n]['graph']
+        hv = sorted(h.variables(), key=repr)
+        parts = list(g.triples)
+        for pat in ('zq%d', 'zq0%d', 'zq00%d'):
+            ren = {v: pat % (i + 1) for i, v in enumerate(hv)}
+            parts += [(ren[s_], r_, ren.get(t_, t_) if r_ != ':instance' else t_) for s_, r_, t_ in h.triples]
+        e = m.errors(penman.Graph(parts, top=g.top))
+        return ['errors-in-order', [[repr(k_), list(v_)] for k_, v_ in e.items()]]
     if k == 'diagnostics':
         return _fp([layout.node_contexts(g), [layout.get_pushed_variable(g, x) for x in g.triples],
                     [layout.appears_inverted(g, x) for x in g.triples]])
@@ -309,7 +320,7 @@ def _op(draw):
         return [k, i, draw(st.sampled_from([None, 0, 1, 2, 3]))]
     if k == 'reconfigure':
         return [k, i, draw(st.sampled_from([None, 0, 1, 2])), draw(st.sampled_from(KEYS))]
-    if k in ('or', 'sub', 'eq'):
+    if k in ('or', 'sub', 'eq', 'errors-disconnected'):
         return [k, i, draw(st.integers(0, 2))]
     if k == 'format_triples':
         return [k, i, draw(st.booleans())]
